@@ -10,6 +10,7 @@ import (
 	"log/slog"
 	"os"
 	"path/filepath"
+	"sort"
 	"strings"
 	"sync"
 	"time"
@@ -235,6 +236,8 @@ func (d *dir) gc(cur, prev time.Time) error {
 	if err != nil {
 		return fmt.Errorf("failed to list repos in gc: %w", err)
 	}
+	// nested repos are visited before the repo holding them, an empty repo is only removed when nothing else is left in its directory
+	sort.Sort(sort.Reverse(sort.StringSlice(repoNames)))
 	errs := []error{}
 	for _, r := range repoNames {
 		// if stop ch was closed, exit immediately
